@@ -118,6 +118,65 @@ def run(ctx):
                what="Planner::plan_filter can return an access-path operator (index / range lookup) without a FilterOperator built from "
                     "the filter's predicate on top: conjuncts the access path did not recognise are dropped", where=pf.loc())
 
+    # ---- R5 the range access path encodes each comparison operator as the bounds it means, and hands them on unchanged
+    tr = P.fn("Planner::try_plan_filter_with_range_index")
+    tx = FlowCx(P, tr)
+    WANT = {"Lt": ("None", "Some", "0", "0"), "Le": ("None", "Some", "0", "1"), "Gt": ("Some", "None", "0", "0"), "Ge": ("Some", "None", "1", "0")}
+    got = {}
+    for bi, b in enumerate(tr.blocks):
+        if b["cl"]:
+            continue
+        for st in b["s"]:
+            rv = st[1]
+            if rv[0] == "agg" and rv[1] == "tuple" and len(rv[4]) == 4:
+                ops = [x[2] for x in tx.facts_at(bi) if x[0] == "variant" and x[1].endswith("BinaryOp")]
+                if not ops:
+                    continue
+                row = []
+                for o in rv[4]:
+                    if o[0] == "k":
+                        row.append(str(o[1]))
+                    else:
+                        tg = tx.tags(o)
+                        row.append("Some" if "agg:Option::Some" in tg else ("None" if "agg:Option::None" in tg else "?"))
+                got[ops[0]] = tuple(row)
+    ctx.floor("R5", len(got), 4, "operator rows in try_plan_filter_with_range_index")
+    for op, want in sorted(WANT.items()):
+        ctx.ob("R5", "range-bounds:%s" % op, got.get(op) == want,
+               what="the range access path turns `%s` into (min, max, min_inclusive, max_inclusive) = %s, expected %s: the index path "
+                    "returns different rows than the scan" % (op, got.get(op), want), where=tr.loc())
+    prf = P.fn("Planner::plan_range_filter")
+    px2 = FlowCx(P, prf)
+    for bi, t in prf.calls():
+        if callee_name(t).endswith("LpgStore::find_nodes_in_range"):
+            cf = P.fns[callee_name(t)]
+            for i, a in enumerate(t["args"]):
+                pn = cf.names().get(i + 1)
+                if pn in ("min", "max", "min_inclusive", "max_inclusive"):
+                    ctx.ob("R5", "range-plumbing:%s" % pn, ("cell:RangeBounds." + pn) in px2.tags(a),
+                           what="plan_range_filter passes something other than bounds.%s as `%s` of find_nodes_in_range" % (pn, pn),
+                           where=prf.loc(t["line"]))
+    # the plan-cache key only normalises whitespace
+    nq = P.fn("cache::normalize_query")
+    allowed = ("split_whitespace", "collect", "join", "deref", "as_str", "into_iter", "as_ref")
+    bad = [callee_name(t).split("::")[-1] for g in P.family(nq) for bi, t in g.calls() if callee_name(t).split("::")[-1] not in allowed]
+    ctx.ob("R2", "normalize_query#whitespace-only", not bad,
+           what="the plan-cache key normalisation does more than collapse whitespace (%s): two different query texts (e.g. differing in "
+                "the case of a string literal) can share a cached plan" % bad, where=nq.loc())
+
+    # ---- R6 the comparators behind pruning and access paths understand every operand-type pair the filter
+    # evaluator understands: a pair the evaluator orders but a pruning comparator calls incomparable makes the range
+    # path drop rows the scan returns (e.g. an integer property compared with a float literal)
+    ev = P.fn("ExpressionPredicate::compare_values")
+    rg = P.fn("lpg::store::compare_values_for_range")
+    pe, pr = variant_pairs(P, ev), variant_pairs(P, rg)
+    ctx.floor("R6", len(pe), 3, "operand-type pairs of the evaluator's comparator")
+    for pair in sorted(pe):
+        ctx.ob("R6", "range-comparator:%s/%s" % pair, pair in pr,
+               what="the filter evaluator orders (%s, %s) values but the range access path's comparator treats the pair as "
+                    "incomparable and rejects the row: a range predicate served by the range path returns fewer rows than the "
+                    "same predicate evaluated by the filter" % pair, where=rg.loc())
+
     # ---- R4 snapshot check on access-path candidates
     nl = P.adt("NodeListOperator")
     has_ctx = any(m.id.split("::")[-1] == "with_tx_context" for m in P.methods_of("NodeListOperator"))
@@ -126,3 +185,26 @@ def run(ctx):
     ctx.ob("R4", "NodeListOperator#snapshot", has_ctx,
            what="node lists taken from index / range / label lookups are emitted by NodeListOperator without any transaction context: "
                 "the access path returns candidates the session's snapshot must not see", where=nl["file"])
+
+
+def variant_pairs(P, fn):
+    """(variant of arg A, variant of arg B) pairs under which fn does real work (a call, comparison or cast)"""
+    out = set()
+    fx = FlowCx(P, fn)
+    params = ["param:%d" % i for i in range(1, fn.argc + 1)]
+    # the two Value parameters are the last two
+    pa, pb = params[-2], params[-1]
+    for bi in range(len(fn.blocks)):
+        b = fn.blocks[bi]
+        if b["cl"]:
+            continue
+        t = b["t"]
+        has_work = t["k"] == "call" or any(st[1][0] in ("bin", "cast") for st in b["s"])
+        if not has_work:
+            continue
+        facts = fx.facts_at(bi)
+        a = [f[2] for f in facts if f[0] == "variant" and f[1].endswith("value::Value") and pa in f[3] and pb not in f[3]]
+        c = [f[2] for f in facts if f[0] == "variant" and f[1].endswith("value::Value") and pb in f[3] and pa not in f[3]]
+        if a and c:
+            out.add((a[0], c[0]))
+    return out
